@@ -829,71 +829,88 @@ func ruleTempFilePairing(c *Ctx, rule string) {
 // new span inside a region an earlier, longer feature already covers, and
 // its letters are emitted twice.
 func ruleRunningEnd(c *Ctx, rule string) {
-	fn := c.fn("seq/sequtils", "Stitch")
+	root := c.fn("seq/sequtils", "Stitch")
 	n := 0
-	for _, b := range fn.Blocks {
-		for _, ins := range b.Instrs {
-			st, ok := ins.(*ssa.Store)
-			if !ok {
-				continue
-			}
-			fa, ok := st.Addr.(*ssa.FieldAddr)
-			if !ok {
-				continue
-			}
-			call, ok := st.Val.(*ssa.Call)
-			if !ok || call.Call.StaticCallee() == nil || call.Call.StaticCallee().Name() != "max" {
-				continue
-			}
-			n++
-			key := fmt.Sprintf("sequtils.Stitch/merge-test-reads-running-end#%d", n)
-			sameField := func(v ssa.Value) bool {
-				u, ok := v.(*ssa.UnOp)
-				if !ok || u.Op != token.MUL {
-					return false
+	for _, fn := range privateReach(root) {
+		for _, b := range fn.Blocks {
+			for _, ins := range b.Instrs {
+				st, ok := ins.(*ssa.Store)
+				if !ok {
+					continue
 				}
-				f2, ok := u.X.(*ssa.FieldAddr)
-				return ok && f2.Field == fa.Field && types.Identical(f2.X.Type(), fa.X.Type())
-			}
-			found := false
-			for _, bf := range branchesAt(b) {
-				if sameField(bf.cond.X) || sameField(bf.cond.Y) {
-					found = true
+				fa, ok := st.Addr.(*ssa.FieldAddr)
+				if !ok {
+					continue
 				}
-			}
-			// the struct that is updated must be the one the span list holds: an element
-			// address, or a pointer that is itself appended to a list of pointers
-			aliased := true
-			why := ""
-			switch base := fa.X.(type) {
-			case *ssa.IndexAddr:
-			case *ssa.Alloc:
-				// a local struct value: is it (only) copied by value into the list?
-				if !base.Heap {
-					aliased, why = false, "a local copy"
+				sameField := func(v ssa.Value) bool {
+					u, ok := v.(*ssa.UnOp)
+					if !ok || u.Op != token.MUL {
+						return false
+					}
+					f2, ok := u.X.(*ssa.FieldAddr)
+					return ok && f2.Field == fa.Field && types.Identical(f2.X.Type(), fa.X.Type())
+				}
+				// a running end: x.e = max(x.e, v), or x.e = v under the test v > x.e
+				running := false
+				if call, ok := st.Val.(*ssa.Call); ok && call.Call.StaticCallee() != nil && call.Call.StaticCallee().Name() == "max" {
+					for _, a := range call.Call.Args {
+						if sameField(a) {
+							running = true
+						}
+					}
+				}
+				for _, bf := range branchesAt(b) {
+					if (bf.cond.X == st.Val && sameField(bf.cond.Y)) || (bf.cond.Y == st.Val && sameField(bf.cond.X)) {
+						running = true
+					}
+				}
+				if !running {
+					continue
+				}
+				n++
+				key := fmt.Sprintf("sequtils.Stitch/merge-test-reads-running-end#%d", n)
+				// the test that selects the extending branch reads that running end (comparing it with
+				// something other than the value being stored)
+				found := false
+				for _, bf := range branchesAt(b) {
+					if (sameField(bf.cond.X) && bf.cond.Y != st.Val) || (sameField(bf.cond.Y) && bf.cond.X != st.Val) {
+						found = true
+					}
+				}
+				// the struct that is updated must be the one the span list holds: an element
+				// address, or a pointer that is itself appended to a list of pointers
+				aliased := true
+				why := ""
+				switch base := fa.X.(type) {
+				case *ssa.IndexAddr:
+				case *ssa.Alloc:
+					// a local struct value: is it (only) copied by value into the list?
+					if !base.Heap {
+						aliased, why = false, "a local copy"
+					} else {
+						// heap cell created by &T{...}/new: fine if the pointer itself is appended
+						aliased = pointerAppended(base)
+						why = "a heap cell whose pointer is never appended to a list"
+					}
+				default:
+					// a loop-carried pointer: one of its sources must be appended as a pointer or be an element address
+					aliased = pointerSourceHeld(fa.X, 0)
+					why = "a pointer that is neither an element address nor appended to the span list"
+				}
+				if found && !aliased {
+					c.bad(rule, key, st.Pos(), "the running end is updated in "+why+": the span already appended to the list keeps its old end, so positions added by a later overlapping feature that ends beyond it are dropped from the stitched result")
+					continue
+				}
+				if found {
+					c.ok(rule, key, st.Pos(), "the extend-or-open test compares against the running end that this branch updates")
 				} else {
-					// heap cell created by &T{...}/new: fine if the pointer itself is appended
-					aliased = pointerAppended(base)
-					why = "a heap cell whose pointer is never appended to a list"
+					c.bad(rule, key, st.Pos(), "the branch that extends the current span updates its running end with max(), but the test that selects this branch never reads that running end: a feature nested in a longer one resets the comparison, so a later feature still inside the longer one opens a new span and its letters are stitched twice")
 				}
-			default:
-				// a loop-carried pointer: one of its sources must be appended as a pointer or be an element address
-				aliased = pointerSourceHeld(fa.X, 0)
-				why = "a pointer that is neither an element address nor appended to the span list"
-			}
-			if found && !aliased {
-				c.bad(rule, key, st.Pos(), "the running end is updated in "+why+": the span already appended to the list keeps its old end, so positions added by a later overlapping feature that ends beyond it are dropped from the stitched result")
-				continue
-			}
-			if found {
-				c.ok(rule, key, st.Pos(), "the extend-or-open test compares against the running end that this branch updates")
-			} else {
-				c.bad(rule, key, st.Pos(), "the branch that extends the current span updates its running end with max(), but the test that selects this branch never reads that running end: a feature nested in a longer one resets the comparison, so a later feature still inside the longer one opens a new span and its letters are stitched twice")
 			}
 		}
 	}
 	if n == 0 {
-		c.und(rule, "sequtils.Stitch/merge-test-reads-running-end", fn.Pos(), "no running-end update (x.e = max(...)) found")
+		c.und(rule, "sequtils.Stitch/merge-test-reads-running-end", root.Pos(), "no running-end update (x.e = max(x.e, ...)) found")
 	}
 }
 
@@ -1438,19 +1455,9 @@ func ruleIndexSpace(c *Ctx, rule string) {
 	fn := c.fn("index/kmerindex", "(*Index).ForEachKmerOf")
 	// parameters that (through the loop counters they initialise or bound) index s.Seq
 	idxParam := map[int]bool{}
-	for _, b := range fn.Blocks {
-		for _, ins := range b.Instrs {
-			ia, ok := ins.(*ssa.IndexAddr)
-			if !ok {
-				continue
-			}
-			if u, ok := ia.X.(*ssa.UnOp); !ok || u.Op != token.MUL {
-				continue
-			} else if fa, ok := u.X.(*ssa.FieldAddr); !ok {
-				continue
-			} else if name, _ := anyFieldName(fa); name != "Seq" {
-				continue
-			}
+	{
+		for _, rd := range seqReadsOf(fn) {
+			ia := struct{ Index ssa.Value }{rd.index}
 			// the counter: a phi seeded from a parameter, and bounded by a parameter
 			if phi, _, ok := linearIn(ia.Index); ok {
 				var walk func(v ssa.Value, d int)
@@ -2002,6 +2009,11 @@ func ruleSignRound(c *Ctx, rule string) {
 						}
 						if g := x.Call.StaticCallee(); g != nil && g.Pkg != nil && g.Pkg.Pkg.Path() == "math" {
 							switch g.Name() {
+							case "Min", "Max":
+								// a clamp: what is being clamped
+								for _, a := range x.Call.Args {
+									walk(a, d+1)
+								}
 							case "Round", "RoundToEven":
 								round = true
 							case "Floor", "Ceil":
